@@ -25,6 +25,14 @@ from asphalt.core import Context, context_teardown, start_service_task  # noqa: 
 
 import symsched
 
+class _RA:
+    pass
+
+
+class _RB:
+    pass
+
+
 KIND = ["sync", "async def+checkpoint", "sync returning an awaitable object (__await__)"]
 RAISES = ["ok", "Exception", "BaseException"]
 ENDS = ["return", "Exception", "BaseException", "ExceptionGroup"]
@@ -254,7 +262,8 @@ def h2(a, tier):
                 await anyio.sleep(0)
                 finish(i)
 
-            ctx.add_resource(object(), f"res{i}", teardown_callback=cb)
+            # registered under TWO types: its teardown callback must still run exactly once
+            ctx.add_resource(object(), f"res{i}", [_RA, _RB], teardown_callback=cb)
         elif r == 2:
 
             @context_teardown
